@@ -488,6 +488,10 @@ func c05pop(c *Ctx, pf map[*ssa.Function]int) {
 	}
 	R.Check(addOK, "R05.2", c.name(pop)+"|expunge-edge-adds-skip", P.Pos(pop.Pos()),
 		"the *expunge edge records the message id in the skip set", "the *expunge edge does not add the message id to the skip set")
+	if _, esc := c.expungeHoldbackAlwaysRecordsID(pop); true {
+		R.Check(esc == "", "R05.2", c.name(pop)+"|expunge-edge-adds-skip-on-every-path", P.Pos(pop.Pos()),
+			"every path of the *expunge edge records the message id in the skip set", "a held-back *expunge can pass without its message id being added to the skip set (path leaves at "+esc+"): a later EXISTS for the same message is released ahead of its EXPUNGE")
+	}
 	R.Check(remOK && resStores > 0, "R05.2", c.name(pop)+"|expunge-edge-keeps-responder", P.Pos(pop.Pos()),
 		"held-back expunge responders are appended to the remainder stored in State.res", "held-back expunge responders are not kept in State.res (removal would never be announced)")
 	// the skipped targetedExists must also go to the remainder
@@ -1045,4 +1049,56 @@ func okChainGets(okCall *ssa.Call, item *ssa.Call) bool {
 		}
 	}
 	return false
+}
+
+// expungeHoldbackAlwaysRecordsID: in popResponders, on every path through the region entered by the
+// "*expunge" edge of the type test, the message id is added to the skip set before the region is left.
+// Returns the number of expunge edges judged and the position of an escaping path ("" if none).
+func (c *Ctx) expungeHoldbackAlwaysRecordsID(pop *ssa.Function) (int, string) {
+	n := 0
+	for _, t := range typeTests(pop, "internal/state", "expunge") {
+		n++
+		entry := t.ifb.Succs[0]
+		region := map[*ssa.BasicBlock]bool{}
+		for _, b := range pop.Blocks {
+			if engine.EdgeDominates(t.ifb, 0, b) {
+				region[b] = true
+			}
+		}
+		if !region[entry] {
+			return n, c.P.Pos(t.ifb.Instrs[len(t.ifb.Instrs)-1].Pos())
+		}
+		seen := map[*ssa.BasicBlock]bool{}
+		var esc string
+		var walk func(b *ssa.BasicBlock)
+		walk = func(b *ssa.BasicBlock) {
+			if seen[b] || esc != "" {
+				return
+			}
+			seen[b] = true
+			for _, in := range b.Instrs {
+				if call, ok := in.(*ssa.Call); ok {
+					if sc := call.Call.StaticCallee(); sc != nil && engine.BaseName(sc) == "Add" {
+						return
+					}
+				}
+			}
+			for _, s := range b.Succs {
+				if !region[s] {
+					last := b.Instrs[len(b.Instrs)-1]
+					esc = c.P.Pos(last.Pos())
+					if esc == "" || esc == "-" || esc == "?" {
+						esc = c.P.Pos(t.ifb.Instrs[len(t.ifb.Instrs)-1].Pos())
+					}
+					return
+				}
+				walk(s)
+			}
+		}
+		walk(entry)
+		if esc != "" {
+			return n, esc
+		}
+	}
+	return n, ""
 }
